@@ -7,7 +7,8 @@ ATTRS = {}       # (tag|None, attr) -> handler(interp, recv) -> Val
 METHODS = {}     # (tag|None, name) -> handler(interp, recv, args, kwargs, recv_node) -> Val
 FIELDS = {}      # mutable attribute name -> result tag (heap-allocated: Select/Store on per-field arrays)
 SPEC = {}        # spec vocabulary name -> Val (SpecFn, constants)
-TAG_CLASS = {}   # tag -> 'module:Class' (for self.method() calls resolved to contracts)
+TAG_CLASS = {}
+INLINE_CTORS = {}  # 'module:Class' -> tag of the allocated object   # tag -> 'module:Class' (for self.method() calls resolved to contracts)
 EXC_PARENT = {   # exception class hierarchy (builtin part; repo part is read from the AST)
     "BaseException": None, "Exception": "BaseException", "KeyboardInterrupt": "BaseException",
     "SystemExit": "BaseException", "GeneratorExit": "BaseException",
